@@ -421,6 +421,15 @@ theorem splatply_table_matches :
     (writer.flatMap (·.2.2)).Nodup := by
   decide
 
+/-- the higher-order harmonics: the export loop offers all 45 = 3·15 coefficients of SH degree 3 (hence every
+    `f_rest_k` a cloud of degree 1, 2 or 3 carries: k < 9, 24, 45), each as a float32 property named exactly
+    like its attribute, and the default reader loads a property no reader claims under its own name -/
+theorem splatply_rest_table :
+    restCount = 45 ∧ restAttrFormat = "f_rest_%d" ∧ restPropFormat = restAttrFormat ∧ restType = "float" ∧
+    readerLoadsUnspecified = true ∧
+    (∀ a ∈ reader, ∀ nm ∈ a.2, nm.toList.take 7 ≠ "f_rest_".toList) := by
+  decide
+
 end splatply
 
 end C15
